@@ -161,7 +161,8 @@ theorem render_fixed_full_partial (env : Env) (hl : NfcLaws env.nfc) (u : URL) (
   ⟨fullText env u, normal env u, h.1, h.2.1, h.2.2⟩
 
 /-- minimal quoting: the URL comes back as it is (userinfo, which is always fully quoted,
-    NFC-normalised) whenever no path segment, query key / value or fragment contains a `%` -/
+    NFC-normalised) whenever no path segment, query key / value or fragment contains a `%`; the host may be an
+    internationalised (non-ASCII) name: it is written raw and read back unchanged (`wfmin_iri`) -/
 theorem roundtrip_min (env : Env) (u : URL) (hW : WFmin env u) (hnil : env.nfc [] = []) :
     ∃ t, toText env false u = .ok t ∧ URL.ofText env t = .ok (normalMin env u) :=
   ⟨minText env u, toText_urlText env false id u hW.toWFq, ofText_urlText env false id u hW.toWFq hnil⟩
@@ -211,7 +212,7 @@ theorem wf_u0 : WF env0 u0 where
   scheme_ok := by decide
   host_ne := by decide
   host_form := .name (by decide) (by decide) (fun _ => rfl)
-  idna_dec := rfl
+  idna_dec := fun _ => rfl
   port_ok := Or.inr ⟨8042, rfl⟩
   path_abs := ⟨_, rfl⟩
   query_ok := by decide
@@ -236,7 +237,7 @@ theorem wfmin_u0 : WFmin env0 u0 where
   scheme_ok := by decide
   host_ne := by decide
   host_form := .name (by decide) (by decide) (fun h => by cases h)
-  idna_dec := rfl
+  idna_dec := fun _ => rfl
   port_ok := Or.inr ⟨8042, rfl⟩
   path_abs := ⟨_, rfl⟩
   query_ok := by decide
@@ -251,6 +252,34 @@ theorem wfmin_u0 : WFmin env0 u0 where
     · exact ⟨by decide, by intro v hv; cases hv; decide⟩
   no_pct_frag := by decide
 
+/-- an IRI with an internationalised host: `http://bücher.de/ä?ö#ü`.  With minimal quoting every non-ASCII character
+    - in the host too - is written raw and read back as it is (no idna codec involved), so it is inside `WFmin` -/
+def uIri : URL :=
+  { scheme := [104, 116, 116, 112], netlocSep := false, username := [], password := [], family := .none,
+    host := [98, 252, 99, 104, 101, 114, 46, 100, 101], port := none, pathParts := [[], [228]],
+    query := [([246], none)], fragment := [252] }
+
+theorem wfmin_iri : WFmin env0 uIri where
+  scheme_ok := by decide
+  host_ne := by decide
+  host_form := .name (by decide) (by decide) (fun h => by cases h)
+  idna_dec := fun h => by revert h; decide
+  port_ok := Or.inl rfl
+  path_abs := ⟨_, rfl⟩
+  query_ok := by decide
+  user_scalar := by decide
+  pw_scalar := by decide
+  no_pct_parts := by decide
+  no_pct_query := by
+    intro kv hkv
+    simp only [uIri, List.mem_cons, List.mem_nil_iff, or_false] at hkv
+    subst hkv
+    exact ⟨by decide, by intro v hv; cases hv⟩
+  no_pct_frag := by decide
+
+example : ((toText env0 false uIri).toOption.bind fun t => (URL.ofText env0 t).toOption) =
+    some { uIri with netlocSep := true } := by decide +kernel
+
 /-- an IPv6 host: `ws://[::1]:81/%5B?%5D` (with an `inet_pton` that accepts `::1`) -/
 def env6 : Env := ⟨id, fun _ => false, fun h => h == [58, 58, 49], some, some⟩
 
@@ -262,7 +291,7 @@ theorem wf_u6 : WF env6 u6 where
   scheme_ok := by decide
   host_ne := by decide
   host_form := .v6 rfl (by decide) (by decide) (by decide)
-  idna_dec := rfl
+  idna_dec := fun _ => rfl
   port_ok := Or.inr ⟨81, rfl⟩
   path_abs := ⟨_, rfl⟩
   query_ok := by decide
@@ -460,7 +489,7 @@ example : unquote [37, 69, 68, 37, 65, 48, 37, 56, 48] = [0xFFFD, 0xFFFD, 0xFFFD
 theorem parsed_fixed_full_partial (env : Env) (hl : NfcLaws env.nfc) (hnfc : NfcScalar env.nfc) (t : Text) (u : URL)
     (ht : ∀ x ∈ t, isScalar x = true)
     (h : URL.ofText env t = .ok u) (hne : u.host ≠ []) (hhost : HostOK env true u)
-    (hidna : env.idnaDec u.host = some u.host) (hport : PortNat u) :
+    (hidna : isAsciiText u.host = true → env.idnaDec u.host = some u.host) (hport : PortNat u) :
     ∃ t₁ u₁, toText env true u = .ok t₁ ∧ URL.ofText env t₁ = .ok u₁ ∧ toText env true u₁ = .ok t₁ :=
   render_fixed_full_partial env hl u (parsed_WF hl h hne hhost hidna hport (parsed_scalars hnfc h ht))
 
@@ -478,7 +507,7 @@ theorem parsed_fixed_full_noauth (env : Env) (hl : NfcLaws env.nfc) (hnfc : NfcS
 theorem parsed_fixed_min_partial (env : Env) (hl : NfcLaws env.nfc) (hnfc : NfcScalar env.nfc) (t : Text) (u : URL)
     (ht : ∀ x ∈ t, isScalar x = true)
     (h : URL.ofText env t = .ok u) (hne : u.host ≠ []) (hhost : HostOK env false u)
-    (hidna : env.idnaDec u.host = some u.host) (hport : PortNat u)
+    (hidna : isAsciiText u.host = true → env.idnaDec u.host = some u.host) (hport : PortNat u)
     (h1 : ∀ s ∈ u.pathParts, 37 ∉ s) (h2 : ∀ kv ∈ u.query, 37 ∉ kv.1 ∧ ∀ v, kv.2 = some v → 37 ∉ v)
     (h3 : 37 ∉ u.fragment) :
     ∃ t₁ u₁, toText env false u = .ok t₁ ∧ URL.ofText env t₁ = .ok u₁ ∧ toText env false u₁ = .ok t₁ :=
@@ -494,6 +523,42 @@ theorem parsed_fixed_min_noauth (env : Env) (t : Text) (u : URL)
   ⟨t₁, u₁, h1', h2', h3'⟩
 
 example : NfcScalar env0.nfc := fun _ h => h
+
+/-- the component clause for what the PARSER put into the components: for every encodable text that parses to a URL
+    of the first family, the full rendering parses back to the same component texts (NFC-normalised), scheme, host
+    and family, and the port unless it is one that is never written (`normal`) -/
+theorem parsed_roundtrip_full (env : Env) (hl : NfcLaws env.nfc) (hnfc : NfcScalar env.nfc) (t : Text) (u : URL)
+    (ht : ∀ x ∈ t, isScalar x = true)
+    (h : URL.ofText env t = .ok u) (hne : u.host ≠ []) (hhost : HostOK env true u)
+    (hidna : isAsciiText u.host = true → env.idnaDec u.host = some u.host) (hport : PortNat u) :
+    ∃ t₁, toText env true u = .ok t₁ ∧ URL.ofText env t₁ = .ok (normal env u) :=
+  roundtrip_full env u (parsed_WF hl h hne hhost hidna hport (parsed_scalars hnfc h ht)) hl.nil
+
+/-- the same with the conditions on the host DERIVED from the parser: for every encodable text that parses to a URL
+    whose host is ASCII, not an IPv6 literal and without `[` (a registered name or IPv4 literal), that the idna
+    encoder leaves alone, with a natural-number port or none.  `IdnaAsciiId`: a law of the idna decoder (an ASCII
+    result is the name that went in). -/
+theorem parsed_fixed_full_name (env : Env) (hl : NfcLaws env.nfc) (hnfc : NfcScalar env.nfc) (hid : IdnaAsciiId env)
+    (t : Text) (u : URL) (ht : ∀ x ∈ t, isScalar x = true) (h : URL.ofText env t = .ok u)
+    (hne : u.host ≠ []) (hasc : isAsciiText u.host = true) (h6 : u.family ≠ .inet6) (h91 : 91 ∉ u.host)
+    (henc : env.idnaEnc u.host = some u.host) (hport : PortNat u) :
+    ∃ t₁ u₁, toText env true u = .ok t₁ ∧ URL.ofText env t₁ = .ok u₁ ∧ toText env true u₁ = .ok t₁ :=
+  have ⟨hc, hf, hd⟩ := parsed_host_name hid h hne hasc h6 h91
+  parsed_fixed_full_partial env hl hnfc t u ht h hne (.name hc hf (fun _ => henc)) (fun _ => hd) hport
+
+theorem parsed_fixed_min_name (env : Env) (hl : NfcLaws env.nfc) (hnfc : NfcScalar env.nfc) (hid : IdnaAsciiId env)
+    (t : Text) (u : URL) (ht : ∀ x ∈ t, isScalar x = true) (h : URL.ofText env t = .ok u)
+    (hne : u.host ≠ []) (hasc : isAsciiText u.host = true) (h6 : u.family ≠ .inet6) (h91 : 91 ∉ u.host)
+    (hport : PortNat u)
+    (h1 : ∀ s ∈ u.pathParts, 37 ∉ s) (h2 : ∀ kv ∈ u.query, 37 ∉ kv.1 ∧ ∀ v, kv.2 = some v → 37 ∉ v)
+    (h3 : 37 ∉ u.fragment) :
+    ∃ t₁ u₁, toText env false u = .ok t₁ ∧ URL.ofText env t₁ = .ok u₁ ∧ toText env false u₁ = .ok t₁ :=
+  have ⟨hc, hf, hd⟩ := parsed_host_name hid h hne hasc h6 h91
+  parsed_fixed_min_partial env hl hnfc t u ht h hne (.name hc hf (fun hh => by cases hh)) (fun _ => hd) hport h1 h2 h3
+
+example : IdnaAsciiId env0 := fun s h hs _ => by
+  simp only [env0, Option.some.injEq] at hs
+  exact hs.symm
 
 /-- what the parser never returns: an empty list of path segments, an (empty key, no value) query parameter, a
     scheme with a character of `:/?#`; and with a host the path is absolute or empty -/
